@@ -55,6 +55,8 @@ def reindex(ctx, shape, pos, lkind, k, form='list', fill='nan', raise_error=Fals
         f = lambda: a.reindex_axis(arg, **kw)
     elif axis_by == 'name':
         f = lambda: a.reindex_axis(arg, axis=name, **kw)
+    elif axis_by == 'neg':
+        f = lambda: a.reindex_axis(arg, axis=pos - len(shape), **kw)
     else:
         f = lambda: a.reindex_axis(arg, axis=pos, **kw)
     if twice:       # the same request on the same operand a second time must give the same (correct) answer
@@ -195,10 +197,12 @@ def templates():
         for pos in range(len(shape)):
             if shape[pos] < 2:
                 continue
-            for axis_by in ('name', 'pos'):
+            for axis_by in ('name', 'pos', 'neg'):
                 k = 2 if shape[pos] == 3 else 1
-                add('nd-%s-pos%d-%s' % ('x'.join(map(str, shape)), pos, axis_by), 'reindex', 'quick' if len(shape) == 2 or axis_by == 'name' else 'thorough',
+                add('nd-%s-pos%d-%s' % ('x'.join(map(str, shape)), pos, axis_by), 'reindex', 'quick' if len(shape) == 2 or axis_by in ('name', 'neg') else 'thorough',
                     cost=3, shape=shape, pos=pos, lkind='iU'[pos % 2], k=k, axis_by=axis_by, fill='sym' if pos else 'nan')
+    add('nd-square-neg', 'reindex', cost=3, shape=[2, 2], pos=1, lkind='i', k=2, axis_by='neg')
+    add('nd-square-neg-3d', 'reindex', cost=3, shape=[2, 2, 2], pos=1, lkind='i', k=2, axis_by='neg', fill='sym')
     for lk0, lk1 in (('i', 'i'), ('U', 'f')):
         add('like-%s%s' % (lk0, lk1), 'reindex_like', cost=6, lk0=lk0, lk1=lk1)
     return ts
